@@ -518,11 +518,23 @@ def check_lengths(run, prog):
     wp = prog.where(parse)
     seen = []
 
+    def child_slice(v):
+        """a Slice over one of the two child cells of the fixture (recognised by the cells' own data, whatever function receives it)"""
+        if not (isinstance(v, Inst) and v.cls is not None and v.cls.name == 'Slice'):
+            return False
+        bits = v.attrs.get('bits')
+        nat = bits.native if isinstance(bits, Inst) else bits
+        return isinstance(nat, BA) and any(isinstance(sg.val, Sym) and isinstance(sg.val.key, tuple) and sg.val.key[:1] == ('databits',) and sg.val.key[1] in ('l', 'r')
+                                           for sg in nat.segs)
+
     class Probe(Interp):
         def invoke(self, f, args, kw):
-            if f.name in ('parse', 'parse_aug') and self.depth >= 1 and f.module == 'boc.hashmap.parse':
-                seen.append(args[1])
-                return K(None)
+            # the descent into a child: whichever function of the parser module is handed the child's slice together with a key length
+            if self.depth >= 1 and f.module == 'boc.hashmap.parse' and any(child_slice(a) for a in args):
+                lens = [a for a in list(args) + list(kw.values()) if isinstance(a, PInt) or (isinstance(a, K) and isinstance(a.v, int) and not isinstance(a.v, bool))]
+                if lens:
+                    seen.append(lens[0])
+                    return K(None)
             return super().invoke(f, args, kw)
     for aug in (False, True):
         for lab in ('', '1', '010'):
@@ -540,9 +552,11 @@ def check_lengths(run, prog):
                     it.invoke(prog.func('parse_aug', module='boc.hashmap.parse'), [s, L, DictV(), ListV([]), BA(), lam(prog, 'lambda s: s'), lam(prog, 'lambda s: s.load_uint(4)')], {})
                 else:
                     it.invoke(parse, [s, L, DictV(), BA()], {})
-            except (RaiseEx, Fail) as e:
+            except RaiseEx as e:
                 run.fail('D3', f'parse{"_aug" if aug else ""}[symbolic length]', f'label {lab!r}: {type(e).__name__} {e}', wp)
                 continue
+            except Fail as e:
+                raise AnalysisError(f'D3 parse{"_aug" if aug else ""}[symbolic length], label {lab!r}: the interpreter cannot follow the reader: {e}')
             want = Poly.var('L') - Poly.const(len(lab) + 1)
             ok = len(seen) == 2 and all(as_poly(x) == want for x in seen)
             run.check(ok, 'D3', f'reader{"_aug" if aug else ""}[label {lab!r}]' if ok else f'parse{"_aug" if aug else ""}[child length]',
